@@ -48,6 +48,7 @@ class Run(object):
         self.findings = []
         self.rules = {}
         self.assumptions = []
+        self.extra = {}
         self.stats = {'cfg_nodes': 0, 'functions': set(), 'call_sites': 0}
 
     # ----------------------------------------------------------------- model
@@ -191,6 +192,7 @@ def finish(run, mod, extra_coverage=None, selftest=None):
         'trusted_base': ['CPython ast module', 'lomondsa CFG/dominator/exception-edge construction',
                          'external may-raise table in lomondsa/excflow.py'],
     }
+    cov.update(run.extra)
     if extra_coverage:
         cov.update(extra_coverage)
     if selftest is not None:
